@@ -7,7 +7,7 @@ using namespace vs;
 static RCP<const Basic> operand(const std::string &tag, RCP<const Integer> c1, RCP<const Integer> c2)
 {
     RCP<const Basic> x = symbol("x"), y = symbol("y");
-    switch (verif_choice((tag + "_k").c_str(), 11)) {
+    switch (verif_choice((tag + "_k").c_str(), verif_param("kinds", 11))) {
         case 0: return c1;
         case 1: return Rational::from_two_ints(*c2, *integer(2));
         case 2: return x;
@@ -45,7 +45,7 @@ extern "C" void harness_c04_add_mul()
     vec_basic v1 = {a, b, c}, v2 = {c, a, b};
     verif_assert(eq(sum ? *add(v1) : *mul(v1), *ref), "n-ary add/mul equals the pairwise result");
     verif_assert(eq(sum ? *add(v2) : *mul(v2), *ref), "n-ary add/mul ignores the order of its arguments");
-    verif_assert(ref->hash() == op(c, op(b, a))->hash(), "equal results have equal hashes");
+    // (equal hashes of equal results are C01's subject; C04 is about equality of the canonical forms)
     VERIF_END();
 }
 extern "C" void harness_c04_maxmin_logic()
